@@ -155,8 +155,8 @@ def skel(n, path, ind=0, out=None):
         for c in inner[1:]:
             skel(c, path, ind, out)
     elif k == 'CXXCatchStmt':
-        t = node_text(n, path)
-        hdr = t[:t.find(')') + 1] if t.startswith('catch') else 'catch'
+        vd = [c for c in (n.get('inner') or []) if isinstance(c, dict) and c.get('kind') == 'VarDecl']
+        hdr = 'catch (' + (vd[0].get('type', {}).get('qualType', '?') if vd else '...') + ')'
         out.append(pad + 'CATCH ' + hdr)
         skel(inner[-1], path, ind + 1, out)
     elif k in ('NullStmt',):
@@ -178,7 +178,17 @@ def method_skeleton(docs, path, name, which=0):
     if m is None:
         return None
     body = [c for c in m['inner'] if isinstance(c, dict) and c.get('kind') == 'CompoundStmt'][0]
-    return skel(body, path)
+    lines = skel(body, path)
+    # the guarded verification hooks expand to an empty do/while when the guard is off: not part of the skeleton
+    out = []
+    i = 0
+    while i < len(lines):
+        if lines[i].strip() == 'DO' and i + 1 < len(lines) and lines[i + 1].strip().startswith('DOWHILE QUILL_VERIF_YIELD'):
+            i += 2; continue
+        if 'QUILL_VERIF_YIELD' in lines[i]:
+            i += 1; continue
+        out.append(lines[i]); i += 1
+    return out
 
 def field_type(docs, field):
     for d in docs:
@@ -271,6 +281,32 @@ def generate(repo):
     facts['tcm_invalid_count_bits'] = uint_bits(field_type(docs, '_invalid_thread_context_count'))
     for m in ('register_thread_context', 'add_invalid_thread_context', 'has_invalid_thread_context', 'new_thread_context_flag', 'remove_shared_invalidated_thread_context'):
         sk['tcm_' + m] = method_skeleton(docs, p, m) or []
+
+    # ---- BackendWorker: order "read clock / refresh cache", exception containment, pop-before-flag
+    p = os.path.join(inc, 'backend', 'BackendWorker.h')
+    docs = run_clang('#include "quill/backend/BackendWorker.h"\n', 'BackendWorker', repo)
+    for m in ('_poll', '_populate_transit_events_from_frontend_queues', '_populate_formatted_log_message',
+              '_process_lowest_timestamp_transit_event', '_read_and_decode_frontend_queue', '_exit',
+              '_cleanup_invalidated_thread_contexts', '_check_frontend_queues_and_cached_transit_events_empty',
+              'has_pending_events_for_caching_when_transit_event_buffer_empty', '_update_active_thread_contexts_cache'):
+        sk['be' + m] = method_skeleton(docs, p, m) or []
+    pop = [l for l in sk['be_populate_transit_events_from_frontend_queues'] if not l.startswith(' ')]
+    try:
+        i_ts = next(i for i, l in enumerate(pop) if l.startswith('DECL') and 'ts_now' in l)
+        i_for = next(i for i, l in enumerate(pop) if l.startswith('FOR'))
+        facts['be_refresh_after_clock'] = any('_update_active_thread_contexts_cache()' in l for l in pop[i_ts + 1:i_for])
+    except StopIteration:
+        facts['be_refresh_after_clock'] = False
+    fm = sk['be_populate_formatted_log_message']
+    facts['be_format_catch_all'] = any(re.match(r'CATCH catch \(\.\.\.\)', l.strip()) for l in fm)
+    facts['be_format_catch_std'] = any(re.match(r'CATCH catch \(const std::exception', l.strip()) for l in fm)
+    pl = [l.strip() for l in sk['be_process_lowest_timestamp_transit_event']]
+    try:
+        i_pop = next(i for i, l in enumerate(pl) if 'pop_front()' in l)
+        i_flag = next(i for i, l in enumerate(pl) if 'flush_flag->store(true)' in l)
+        facts['be_pop_before_flag'] = i_pop < i_flag
+    except StopIteration:
+        facts['be_pop_before_flag'] = False
 
     return sk, facts, notes
 
